@@ -86,9 +86,12 @@ def random_binary_regex(rng):
 if __name__ == "__main__":
     t = common.tier()
     rng = random.Random(common.seed())
-    res = small_regexes(2 if t == "quick" else 3)
+    res = small_regexes(2)
     if t == "quick":
         res = [r for r in res if len(r) <= 3] + rng.sample(res, 250)
+    else:
+        # every AST up to two atoms, and a sample of the 117 649 three-atom ones
+        res = res + rng.sample(small_regexes(3)[len(res):], 6000)
     progs = []
     for i, r in enumerate(res):
         progs.append({"name": f"re-{i}", "src": f"parser {{\n  /{r}/;\n}}\n", "args": ["-feof-support"], "feats": {}})
@@ -99,4 +102,4 @@ if __name__ == "__main__":
     for i, p in enumerate(progs):
         p["also_O3"] = (i % 4 == 0)
     refcheck.run("C07", THEOREMS, "NmfuProps.C01", progs,
-                 "every regex AST up to 2 (thorough 3) atoms over {a,b,c,[ab],[^a],.,\\d} x {?,*,+,{2},{1,2},{2,}} (quick: a sample), random larger text regexes with classes / inverted sets / ranges, random binary regexes with high bytes; one-statement programs with EOF support; distinct accepted programs with at least 3 states")
+                 "every regex AST up to 2 atoms (quick: a sample; thorough: plus 6000 of the three-atom ones) over {a,b,c,[ab],[^a],.,\\d} x {?,*,+,{2},{1,2},{2,}} (quick: a sample), random larger text regexes with classes / inverted sets / ranges, random binary regexes with high bytes; one-statement programs with EOF support; distinct accepted programs with at least 3 states")
